@@ -10,7 +10,7 @@ Open Scope nat_scope.
 Lemma norm_piece_canon : forall p last, canon_value (norm_piece p last) = true.
 Proof.
   intros p last. unfold norm_piece.
-  set (c := if last then _ else _). destruct (big_of_string c) eqn:E; unfold canon_value.
+  cbv zeta. set (c := if last then _ else _). destruct (big_of_string c) eqn:E; unfold canon_value.
   - rewrite big_of_string_Z_to_dec. apply bytes_eqb_refl.
   - rewrite E. reflexivity.
 Qed.
